@@ -15,6 +15,7 @@
   starts at cursor 0 and stops at the first returned 0 (`Code.iter`, `Code.iterFinishes`).
 -/
 import FerrousSpec.Proofs.ScanIter
+import FerrousSpec.Proofs.ScanSlot
 import FerrousSpec.Proofs.ScanGlob
 import FerrousSpec.Proofs.ScanGlobRefine
 import FerrousSpec.Proofs.ScanKeyCursor
@@ -28,14 +29,31 @@ open Ferrous Ferrous.Scan
     checking if e.g. the examined-keys budget becomes 0. -/
 theorem tree_scan_cfg_ok : Gen.scanCfg.ok := by decide
 
-/-- The four scan functions still sort a fresh list and use the cursor as an index into it.
-    Stops checking when the cursor scheme is replaced (then `scan_complete_fails` no longer
-    describes the code and the model must follow). -/
-theorem tree_cursor_is_rank : Gen.scanCursorIsRank = true := by decide
+/-- The translator recognises exactly one cursor scheme in all four scan functions: the rank
+    (`cursor as usize` … `current_pos as u64`) or the slot (`partition_point(scan_slot < cursor)` …
+    `scan_slot(next)`, FNV-1a `>> 11`).  Stops checking when the functions disagree or use neither. -/
+theorem tree_cursor_scheme_recognised : Gen.scanCursorIsRank = !Gen.scanCfg.slotCursor := by decide
 
-/-- `StorageEngine::scan` is the cursor walk over the sorted view of the database. -/
+/-- The current tree uses the RANK cursor, so `scan_complete_partial` / `scan_complete_fails`
+    describe it.  When pending_repo_patches/C19_2_fix_slot_cursor.diff is applied this line stops
+    checking: restate it as `tree_cursor_is_slot : Gen.scanCfg.slotCursor = true`; from then on
+    `scan_complete` (full strength) describes the tree and finding C19-cursor-is-rank is closed. -/
+theorem tree_cursor_is_rank : Gen.scanCfg.slotCursor = false := by decide
+
+/-- The constants of the tree with either cursor scheme (the witnesses below name the scheme they
+    are about, so they keep checking when the tree changes scheme). -/
+abbrev rankCfg : Cfg := { Gen.scanCfg with slotCursor := false }
+abbrev slotCfg : Cfg := { Gen.scanCfg with slotCursor := true }
+
+/-- `StorageEngine::scan` is the rank walk over the view sorted by name, or the slot walk over the
+    view sorted by (slot, name). -/
 theorem scan_is_walk (g : Cfg) (db : Db) (cursor count : Nat) (pat ty : Option Bytes) :
-    Code.scan g db cursor count pat ty = Code.scanSorted g (Code.matchOpt g.lossy pat) (view ty db) cursor count := rfl
+    (g.slotCursor = false →
+      Code.scan g db cursor count pat ty = Code.scanSorted g (Code.matchOpt g.lossy pat) (view ty db) cursor count) ∧
+    (g.slotCursor = true →
+      Code.scan g db cursor count pat ty =
+        Code.scanSlots g scanSlot (Code.matchOpt g.lossy pat) (viewSlot ty db) cursor count) := by
+  constructor <;> intro hh <;> simp [Code.scan, hh]
 
 /-! ### Soundness -/
 
@@ -44,23 +62,54 @@ theorem scan_is_walk (g : Cfg) (db : Db) (cursor count : Nat) (pat ty : Option B
 theorem scan_sound (g : Cfg) (hg : g.ok) (db : Db) (cursor count : Nat) (pat ty : Option Bytes) (k : Bytes)
     (hk : k ∈ (Code.scan g db cursor count pat ty).2) :
     (∃ t, (k, t) ∈ db ∧ typeOk ty t = true) ∧ Code.matchOpt g.lossy pat k = true := by
-  have := scanSorted_mem g (Code.matchOpt g.lossy pat) hg (view ty db) cursor count k hk
-  exact ⟨(mem_view ty db k).mp this.1, this.2⟩
+  cases hc : g.slotCursor with
+  | false =>
+    rw [(scan_is_walk g db cursor count pat ty).1 hc] at hk
+    have := scanSorted_mem g (Code.matchOpt g.lossy pat) hg (view ty db) cursor count k hk
+    exact ⟨(mem_view ty db k).mp this.1, this.2⟩
+  | true =>
+    rw [(scan_is_walk g db cursor count pat ty).2 hc] at hk
+    have := scanSlots_mem g scanSlot (Code.matchOpt g.lossy pat) hg (viewSlot ty db) (sorted_viewSlot ty db) cursor count k hk
+    exact ⟨(mem_viewSlot ty db k).mp this.1, this.2⟩
 
-/-- One call never returns more than `min(COUNT, 1000)` keys (COUNT 0 meaning 10). -/
-theorem scan_batch_bounded (g : Cfg) (db : Db) (cursor count : Nat) (pat ty : Option Bytes) :
-    (Code.scan g db cursor count pat ty).2.length ≤ Code.normCount g count :=
-  scanSorted_length g (Code.matchOpt g.lossy pat) (view ty db) cursor count
+/-- Rank cursor: one call never returns more than `min(COUNT, 1000)` keys (COUNT 0 meaning 10). -/
+theorem scan_batch_bounded (g : Cfg) (hr : g.slotCursor = false) (db : Db) (cursor count : Nat) (pat ty : Option Bytes) :
+    (Code.scan g db cursor count pat ty).2.length ≤ Code.normCount g count := by
+  rw [(scan_is_walk g db cursor count pat ty).1 hr]
+  exact scanSorted_length g (Code.matchOpt g.lossy pat) (view ty db) cursor count
+
+/-- Slot cursor: at most `min(COUNT, 1000)` keys plus one group of keys with equal slots (a page
+    never ends inside such a group) … -/
+theorem scan_batch_bounded_slot (g : Cfg) (hs : g.slotCursor = true) (db : Db) (cursor count : Nat) (pat ty : Option Bytes) :
+    ∃ S, (Code.scan g db cursor count pat ty).2.length ≤
+      Code.normCount g count + ((viewSlot ty db).filter (fun k => decide (S = some (scanSlot k)))).length := by
+  rw [(scan_is_walk g db cursor count pat ty).2 hs]
+  exact scanSlots_length g scanSlot (Code.matchOpt g.lossy pat) (viewSlot ty db) cursor count
+
+/-- … that is `min(COUNT, 1000) + 1` when no two candidate keys share a slot. -/
+theorem scan_batch_bounded_slot_nocollision (g : Cfg) (hs : g.slotCursor = true) (db : Db) (cursor count : Nat)
+    (pat ty : Option Bytes) (hinj : (viewSlot ty db).Pairwise (fun a b => scanSlot a ≠ scanSlot b)) :
+    (Code.scan g db cursor count pat ty).2.length ≤ Code.normCount g count + 1 := by
+  obtain ⟨S, hS⟩ := scan_batch_bounded_slot g hs db cursor count pat ty
+  have := cntSlot_le_one scanSlot S (viewSlot ty db) hinj
+  unfold cntSlot at this
+  omega
 
 /-! ### Progress and termination -/
 
 /-- With an unchanged key space the returned cursor is 0 (iteration over) or strictly larger
-    than the one passed in and still inside the list — whatever MATCH filters away. -/
+    than the one passed in — with either cursor scheme, whatever MATCH filters away. -/
 theorem scan_progress (g : Cfg) (hg : g.ok) (db : Db) (cursor count : Nat) (pat ty : Option Bytes) :
-    (Code.scan g db cursor count pat ty).1 = 0 ∨
-      (cursor < (Code.scan g db cursor count pat ty).1 ∧
-        (Code.scan g db cursor count pat ty).1 < (view ty db).length) :=
-  scanSorted_progress g (Code.matchOpt g.lossy pat) hg (view ty db) cursor count
+    (Code.scan g db cursor count pat ty).1 = 0 ∨ cursor < (Code.scan g db cursor count pat ty).1 := by
+  cases hc : g.slotCursor with
+  | false =>
+    rw [(scan_is_walk g db cursor count pat ty).1 hc]
+    rcases scanSorted_progress g (Code.matchOpt g.lossy pat) hg (view ty db) cursor count with h0 | h1
+    · exact Or.inl h0
+    · exact Or.inr h1.1
+  | true =>
+    rw [(scan_is_walk g db cursor count pat ty).2 hc]
+    exact scanSlots_progress g scanSlot (Code.matchOpt g.lossy pat) hg (viewSlot ty db) (sorted_viewSlot ty db) cursor count
 
 /-- **Termination bound.**  If the candidate list never grows from one call to the next
     (deletions allowed), a full iteration started at cursor 0 over `n` candidate keys ends after
@@ -92,7 +141,84 @@ theorem scan_terminates (g : Cfg) (hg : g.ok) (db : Db) (count : Nat) (pat ty : 
     exact Nat.le_refl _
   · simp
 
+/-- **Termination bound, slot cursor.**  If from one call to the next no slot range gains keys
+    (nothing is added; deletions allowed), a full iteration over `n` candidate keys ends after at
+    most `n / min(COUNT,1000) + 1` calls. -/
+theorem scan_terminates_slot_nogrowth (g : Cfg) (hg : g.ok) (count : Nat) (pat : Option Bytes)
+    (ks : List Bytes) (rest : List (List Bytes)) (hsort : ∀ l ∈ ks :: rest, SortedS scanSlot l)
+    (hng : NoGrowthS scanSlot (ks :: rest))
+    (hlen : ks.length / Code.normCount g count + 1 ≤ (ks :: rest).length) :
+    ∃ n, Code.iterSCalls g scanSlot (Code.matchOpt g.lossy pat) count 0 (ks :: rest) = some n ∧
+      1 ≤ n ∧ n ≤ ks.length / Code.normCount g count + 1 := by
+  have hcnt : cntGe scanSlot 0 ks = ks.length := by
+    unfold cntGe
+    rw [List.filter_eq_self.mpr (by intro a _; simp)]
+  have := iterSCalls_bound g scanSlot (Code.matchOpt g.lossy pat) hg count (ks :: rest) 0 ks rest rfl hsort hng
+    (by rw [hcnt]; exact hlen)
+  rw [hcnt] at this
+  exact this
+
+/-- The same for a key space that does not change at all. -/
+theorem scan_terminates_slot (g : Cfg) (hg : g.ok) (db : Db) (count : Nat) (pat ty : Option Bytes) :
+    ∃ n, Code.iterSCalls g scanSlot (Code.matchOpt g.lossy pat) count 0
+        (List.replicate ((viewSlot ty db).length / Code.normCount g count + 1) (viewSlot ty db)) = some n ∧
+      1 ≤ n ∧ n ≤ (viewSlot ty db).length / Code.normCount g count + 1 := by
+  have hrep : List.replicate ((viewSlot ty db).length / Code.normCount g count + 1) (viewSlot ty db) =
+      viewSlot ty db :: List.replicate ((viewSlot ty db).length / Code.normCount g count) (viewSlot ty db) := by
+    simp [List.replicate_succ]
+  rw [hrep]
+  apply scan_terminates_slot_nogrowth g hg count pat
+  · intro l hl
+    rw [← hrep] at hl
+    rw [List.eq_of_mem_replicate hl]
+    exact sorted_viewSlot ty db
+  · rw [← hrep]
+    unfold NoGrowthS
+    rw [List.pairwise_replicate]
+    right
+    intro c
+    exact Nat.le_refl _
+  · simp
+
 /-! ### Completeness -/
+
+/-- **The full statement, for the slot cursor.**  Take any history of databases — anything may be
+    added or deleted between two calls — any COUNT, MATCH and TYPE, and a full iteration over it
+    (cursor 0 until 0 comes back).  Every key that has the requested type in every database of the
+    history and passes MATCH is returned by at least one call.  No exclusion. -/
+theorem scan_complete (g : Cfg) (hg : g.ok) (count : Nat) (pat ty : Option Bytes) (hist : List Db)
+    (hfin : Code.iterSFinishes g scanSlot (Code.matchOpt g.lossy pat) count 0 (hist.map (viewSlot ty)) = true)
+    (k : Bytes) (hk : ∀ db ∈ hist, ∃ t, (k, t) ∈ db ∧ typeOk ty t = true)
+    (hm : Code.matchOpt g.lossy pat k = true) :
+    k ∈ (Code.iterS g scanSlot (Code.matchOpt g.lossy pat) count 0 (hist.map (viewSlot ty))).flatten := by
+  apply iterS_complete g scanSlot (Code.matchOpt g.lossy pat) hg count k hm (hist.map (viewSlot ty)) 0
+  · intro ks hks
+    obtain ⟨db, _, rfl⟩ := List.mem_map.mp hks
+    exact sorted_viewSlot ty db
+  · intro ks hks
+    obtain ⟨db, hdb, rfl⟩ := List.mem_map.mp hks
+    exact (mem_viewSlot ty db k).mpr (hk db hdb)
+  · exact hfin
+  · exact Nat.zero_le _
+
+/-- …and it returns no key twice: the keys of a batch have their slots in `[cursor, next)`, and
+    the cursor of every later call is at least `next`. -/
+theorem scan_batch_slots (g : Cfg) (hg : g.ok) (hs : g.slotCursor = true) (db : Db) (cursor count : Nat)
+    (pat ty : Option Bytes) (k : Bytes) (hk : k ∈ (Code.scan g db cursor count pat ty).2) :
+    cursor ≤ scanSlot k ∧
+      ((Code.scan g db cursor count pat ty).1 ≠ 0 → scanSlot k < (Code.scan g db cursor count pat ty).1) := by
+  rw [(scan_is_walk g db cursor count pat ty).2 hs] at hk ⊢
+  exact scanSlots_batch_slots g scanSlot (Code.matchOpt g.lossy pat) hg (viewSlot ty db) (sorted_viewSlot ty db) cursor count k hk
+
+/-- The history that defeats the rank cursor (keys `a b c`, COUNT 1, `a` deleted after the first
+    call), walked with the slot cursor (slot order `a c b`): three calls return `a`, `c`, `b`. -/
+theorem scan_complete_slot_on_rank_witness :
+    Code.iterSFinishes slotCfg scanSlot (Code.matchOpt false none) 1 0
+      ([[([97], 0), ([98], 0), ([99], 0)], [([98], 0), ([99], 0)], [([98], 0), ([99], 0)]].map (viewSlot none)) = true ∧
+    Code.iterS slotCfg scanSlot (Code.matchOpt false none) 1 0
+      ([[([97], 0), ([98], 0), ([99], 0)], [([98], 0), ([99], 0)], [([98], 0), ([99], 0)]].map (viewSlot none)) =
+        [[[97]], [[99]], [[98]]] := by
+  decide
 
 /-- **What the rank cursor guarantees.**  Take any history of databases, any COUNT, MATCH and
     TYPE, and a full iteration over it.  If between two successive calls no key that ranks below
@@ -139,8 +265,8 @@ theorem scan_complete_under_additions (g : Cfg) (hg : g.ok) (count : Nat) (pat t
 /-- …and duplicates do occur: keys `b c`; `SCAN 0 COUNT 1` → `b`, cursor 1; `a` is added;
     `SCAN 1 COUNT 1` → `b` again. -/
 theorem scan_additions_duplicate :
-    Code.scan Gen.scanCfg [([98], 0), ([99], 0)] 0 1 none none = (1, [[98]]) ∧
-    Code.scan Gen.scanCfg [([97], 0), ([98], 0), ([99], 0)] 1 1 none none = (2, [[98]]) := by
+    Code.scan rankCfg [([98], 0), ([99], 0)] 0 1 none none = (1, [[98]]) ∧
+    Code.scan rankCfg [([97], 0), ([98], 0), ([99], 0)] 1 1 none none = (2, [[98]]) := by
   constructor <;> decide
 
 /-- **The full statement is false for the rank cursor.**  Keys `a b c`; `SCAN 0 COUNT 1` → `a`,
@@ -166,8 +292,8 @@ theorem scan_complete_fails :
 
 /-- The two calls of the witness, as the engine answers them. -/
 theorem scan_complete_fails_calls :
-    Code.scan Gen.scanCfg [([97], 0), ([98], 0), ([99], 0)] 0 1 none none = (1, [[97]]) ∧
-    Code.scan Gen.scanCfg [([98], 0), ([99], 0)] 1 1 none none = (0, [[99]]) ∧
+    Code.scan rankCfg [([97], 0), ([98], 0), ([99], 0)] 0 1 none none = (1, [[97]]) ∧
+    Code.scan rankCfg [([98], 0), ([99], 0)] 1 1 none none = (0, [[99]]) ∧
     Code.noDelBelow Gen.scanCfg (Code.matchOpt true none) 1 0 [[[97], [98], [99]], [[98], [99]]] = false := by
   refine ⟨?_, ?_, ?_⟩ <;> decide
 
@@ -185,18 +311,27 @@ theorem scan_complete_keycursor (m : Bytes → Bool) (count : Nat) (hist : List 
 /-- SSCAN (fast path included) returns what the cursor walk over the sorted member list
     returns, so soundness, progress, the termination bound, `…_partial` and the witness above
     apply to it verbatim (the fast-path reply comes in hash-table order in the real code). -/
-theorem sscan_same_walk (g : Cfg) (hg : g.ok) (members : List Bytes) (cursor count : Nat) (pat : Option Bytes) :
+theorem sscan_same_walk (g : Cfg) (hg : g.ok) (hr : g.slotCursor = false) (members : List Bytes) (cursor count : Nat) (pat : Option Bytes) :
     Code.sscan g members cursor count pat =
       Code.scanSorted g (Code.matchOpt g.lossy pat) (sortKeys members) cursor count :=
-  sscan_eq_scanSorted g hg members cursor count pat
+  sscan_eq_scanSorted g hg hr members cursor count pat
+
+/-- With the slot cursor SSCAN is the slot walk over its members (fast path included), so
+    `scan_complete`, the bounds and disjointness apply to it verbatim. -/
+theorem sscan_same_walk_slot (g : Cfg) (hg : g.ok) (hs : g.slotCursor = true) (members : List Bytes) (cursor count : Nat) (pat : Option Bytes) :
+    Code.sscan g members cursor count pat =
+      Code.scanSlots g scanSlot (Code.matchOpt g.lossy pat) (sortSlot scanSlot members) cursor count :=
+  sscan_eq_scanSlots g hg hs members cursor count pat
 
 /-- HSCAN: the same walk over the field names; NOVALUES returns exactly the fields. -/
 theorem hscan_same_walk (g : Cfg) (hg : g.ok) (h : List (Bytes × Bytes)) (cursor count : Nat) (pat : Option Bytes) :
-    Code.hscan g h cursor count pat true =
-      Code.scanSorted g (Code.matchOpt g.lossy pat) (sortKeys (h.map (·.1))) cursor count := by
-  unfold Code.hscan
-  simp only [if_true]
-  rw [sscan_eq_scanSorted g hg]
+    (g.slotCursor = false → Code.hscan g h cursor count pat true =
+      Code.scanSorted g (Code.matchOpt g.lossy pat) (sortKeys (h.map (·.1))) cursor count) ∧
+    (g.slotCursor = true → Code.hscan g h cursor count pat true =
+      Code.scanSlots g scanSlot (Code.matchOpt g.lossy pat) (sortSlot scanSlot (h.map (·.1))) cursor count) := by
+  constructor <;> intro hh <;> unfold Code.hscan <;> simp only [if_true]
+  · rw [sscan_eq_scanSorted g hg hh]
+  · rw [sscan_eq_scanSlots g hg hh]
 
 /-- HSCAN with values: the cursor is the same and each returned field is followed by its value. -/
 theorem hscan_with_values (g : Cfg) (h : List (Bytes × Bytes)) (cursor count : Nat) (pat : Option Bytes) :
@@ -207,13 +342,21 @@ theorem hscan_with_values (g : Cfg) (h : List (Bytes × Bytes)) (cursor count : 
 
 /-- ZSCAN: the same walk over the members, each returned with its score. -/
 theorem zscan_same_walk (g : Cfg) (hg : g.ok) (z : List (Bytes × Int)) (cursor count : Nat) (pat : Option Bytes) :
-    (Code.zscan g z cursor count pat).1 =
-      (Code.scanSorted g (Code.matchOpt g.lossy pat) (sortKeys (z.map (·.1))) cursor count).1 ∧
-    (Code.zscan g z cursor count pat).2.map (·.1) =
-      (Code.scanSorted g (Code.matchOpt g.lossy pat) (sortKeys (z.map (·.1))) cursor count).2 := by
-  unfold Code.zscan
-  rw [sscan_eq_scanSorted g hg]
-  simp [List.map_map, Function.comp_def]
+    (g.slotCursor = false →
+      (Code.zscan g z cursor count pat).1 =
+        (Code.scanSorted g (Code.matchOpt g.lossy pat) (sortKeys (z.map (·.1))) cursor count).1 ∧
+      (Code.zscan g z cursor count pat).2.map (·.1) =
+        (Code.scanSorted g (Code.matchOpt g.lossy pat) (sortKeys (z.map (·.1))) cursor count).2) ∧
+    (g.slotCursor = true →
+      (Code.zscan g z cursor count pat).1 =
+        (Code.scanSlots g scanSlot (Code.matchOpt g.lossy pat) (sortSlot scanSlot (z.map (·.1))) cursor count).1 ∧
+      (Code.zscan g z cursor count pat).2.map (·.1) =
+        (Code.scanSlots g scanSlot (Code.matchOpt g.lossy pat) (sortSlot scanSlot (z.map (·.1))) cursor count).2) := by
+  constructor <;> intro hh <;> unfold Code.zscan
+  · rw [sscan_eq_scanSorted g hg hh]
+    simp [List.map_map, Function.comp_def]
+  · rw [sscan_eq_scanSlots g hg hh]
+    simp [List.map_map, Function.comp_def]
 
 /-! ### The MATCH matcher -/
 
@@ -262,7 +405,7 @@ theorem scan_sound_glob_partial (g : Cfg) (hg : g.ok) (db : Db) (cursor count : 
     (hp : g.lossy = true → ∀ b ∈ pat, b < 128) (hka : g.lossy = true → ∀ b ∈ k, b < 128)
     (toks : List Spec.Tok) (hw : Spec.tokenize pat = some toks) :
     Spec.matchBytes pat k = some true := by
-  have := (scanSorted_mem g (Code.matchOpt g.lossy (some pat)) hg (view ty db) cursor count k hk).2
+  have := (scan_sound g hg db cursor count (some pat) ty k hk).2
   simp only [Code.matchOpt] at this
   cases hl : g.lossy with
   | true =>
@@ -350,7 +493,7 @@ example : Code.iterCalls Gen.scanCfg (Code.matchOpt true none) 2 0 (List.replica
 example : NonGrowing [[[97], [98], [99]], [[98], [99]], [[99]]] := by
   unfold NonGrowing; decide
 
-example : Code.scan Gen.scanCfg [([97, 49], 0), ([98], 2), ([97, 50], 0), ([97], 3)] 0 10 (some [97, 42]) (some [115, 116, 114, 105, 110, 103]) =
+example : Code.scan rankCfg [([97, 49], 0), ([98], 2), ([97, 50], 0), ([97], 3)] 0 10 (some [97, 42]) (some [115, 116, 114, 105, 110, 103]) =
     (0, [[97, 49], [97, 50]]) := by decide
 
 example : Spec.iterAfter (fun _ => true) 1 none [[[97], [98], [99]], [[98], [99]], [[98], [99]]] = [[[97]], [[98]], [[99]]] := by
